@@ -60,6 +60,7 @@ struct Outcome {
     undecided_cancels: u64,
     delivered: u64,
     xml: String,
+    timeline: Vec<String>,
 }
 
 fn mark_time(log: &[Entry], tag: &str, uid: &str) -> Option<Instant> {
@@ -69,8 +70,15 @@ fn mark_time(log: &[Entry], tag: &str, uid: &str) -> Option<Instant> {
     })
 }
 
+fn mark_seq(log: &[Entry], tag: &str, uid: &str) -> Option<u64> {
+    log.iter().find_map(|e| match &e.ev {
+        Ev::Mark { tag: t, args, .. } if t == tag && matches!(args.first(), Some(V::Str(s)) if s == uid) => Some(e.seq),
+        _ => None,
+    })
+}
+
 fn scenario(rng: &mut Rng, thorough: bool, dm: &str) -> Outcome {
-    let w_ms: u64 = if thorough { 1500 } else { 400 };
+    let w_ms: u64 = if thorough { 1000 } else { 300 };
     let n = 2 + rng.below(5);
     let delays: Vec<u64> = if thorough { vec![1, 2, 5, 10, 20, 50, 100, 300, 800, 2000] } else { vec![1, 2, 5, 10, 20, 40, 80, 150, 300] };
     let mut sends: Vec<SendSpec> = Vec::new();
@@ -120,6 +128,13 @@ fn scenario(rng: &mut Rng, thorough: bool, dm: &str) -> Outcome {
         }
     }
     body.push_str("<cancel sendid=\"never-sent\"/>\n");
+    // barrier: due at least 100 ms after everything else and never cancelled; its arrival is the
+    // logical point after which every earlier-due event must have been delivered
+    let bar_ms = sends.iter().map(|s| s.delay_ms).max().unwrap_or(0) + 100;
+    body.push_str(&format!(
+        "<script>mark('sb', 'ubar')</script><send id=\"ubar\" event=\"d.ubar\" delay=\"{}ms\"><param name=\"v\" expr=\"v\"/><param name=\"u\" expr=\"'ubar'\"/></send><script>mark('sa', 'ubar')</script>\n",
+        bar_ms
+    ));
     let mut later = String::new();
     for s in &sends {
         if let Some(CancelHow::Later(_)) = s.cancel {
@@ -154,6 +169,7 @@ fn scenario(rng: &mut Rng, thorough: bool, dm: &str) -> Outcome {
         undecided_cancels: 0,
         delivered: 0,
         xml: xml.clone(),
+        timeline: vec![],
     };
     let mut case = Case::new();
     let fsm = match parse_xml(&xml) {
@@ -200,31 +216,36 @@ fn scenario(rng: &mut Rng, thorough: bool, dm: &str) -> Outcome {
         }
         r.send(ev);
     }
-    let max_delay = sends.iter().map(|s| s.delay_ms).max().unwrap_or(0);
-    let end = t_go + Duration::from_millis(max_delay + w_ms);
-    let now = Instant::now();
-    if end > now {
-        std::thread::sleep(end - now);
-    }
-    r.send("sentinel");
-    // wait for the sentinel mark
+    // wait for the barrier event (logical end of the scenario); the watchdog is generous and only
+    // ever yields "inconclusive"
     let t0 = Instant::now();
     loop {
-        let seen = rec::snapshot_log().iter().any(|e| matches!(&e.ev, Ev::Mark { tag, .. } if tag == "sentinel"));
+        let seen = rec::snapshot_log().iter().any(|e| matches!(&e.ev, Ev::Mark { tag, args, .. } if tag == "rv" && matches!(args.first(), Some(V::Str(u)) if u == "ubar")));
         if seen {
             break;
         }
-        if t0.elapsed() > Duration::from_secs(20) {
-            out.inconclusive = Some("sentinel not processed".into());
+        if t0.elapsed() > Duration::from_millis(bar_ms) + Duration::from_secs(90) {
+            out.inconclusive = Some("barrier event not delivered within the watchdog".into());
+            let _ = r.finish();
+            let _ = sib.finish();
+            let _ = rec::take_log();
             return out;
         }
-        std::thread::sleep(Duration::from_millis(5));
+        std::thread::sleep(Duration::from_millis(10));
     }
+    // a short grace period so that duplicates / late deliveries have a chance to show up
+    std::thread::sleep(Duration::from_millis(w_ms / 10));
     r.finish();
     sib.finish();
     let log = rec::take_log();
     // ---- checker ----
     let sid = r.session.session_id;
+    for e in &log {
+        if let Ev::Mark { tag, args, session, .. } = &e.ev {
+            let us = if e.t >= t_go { (e.t - t_go).as_micros() as i64 } else { -((t_go - e.t).as_micros() as i64) };
+            out.timeline.push(format!("{:>9}us seq={} thread={} session={} {}({})", us, e.seq, e.tid, session, tag, args.iter().map(|a| a.show()).collect::<Vec<_>>().join(",")));
+        }
+    }
     let mut rv: HashMap<String, Vec<(Instant, V, u64)>> = HashMap::new();
     for e in &log {
         if let Ev::Mark { tag, args, session, .. } = &e.ev {
@@ -297,22 +318,28 @@ fn scenario(rng: &mut Rng, thorough: bool, dm: &str) -> Outcome {
                 }
             }
         } else {
-            // never arrived (the sentinel, sent after max delay + W, was processed)
-            let must_arrive = if effective_cancel {
-                match cb {
-                    Some(cb) => cb > latest_due + Duration::from_millis(50),
-                    None => true,
-                }
-            } else {
-                true
-            };
-            if must_arrive {
+            // never arrived although the barrier event, due at least 100 ms later, was delivered
+            if !effective_cancel {
                 out.violations.push((
                     if s.cancel == Some(CancelHow::OtherSession) { "cancel-from-other-session-took-effect" } else { "delayed-event-lost" }.to_string(),
-                    format!("event {} (delay {}) was never delivered although it was not cancelled in time (window {} ms after the longest delay, sentinel processed)", s.uid, s.spelling, w_ms),
+                    format!("event {} (delay {}) was never delivered although it was not cancelled and the barrier event (due >= 100 ms later) was delivered", s.uid, s.spelling),
                 ));
-            } else if effective_cancel {
-                if ca.map(|c| c < earliest_due).unwrap_or(false) {
+            } else {
+                // cancelled: it had to be delivered only if a later-due event was processed before the cancel started
+                let cb_seq = mark_seq(&log, "cb", &s.uid);
+                let overtaken = sends.iter().find(|y| {
+                    y.uid != s.uid
+                        && match (mark_time(&log, "sb", &y.uid), rv.get(&y.uid).and_then(|v| v.first()), cb_seq) {
+                            (Some(sb_y), Some(ry), Some(cbs)) => sb_y + Duration::from_millis(y.delay_ms) > latest_due && ry.2 < cbs,
+                            _ => false,
+                        }
+                });
+                if let Some(y) = overtaken {
+                    out.violations.push((
+                        "delayed-event-lost".to_string(),
+                        format!("event {} (delay {}) was not delivered before its <cancel> although {} (due later) had already been delivered then", s.uid, s.spelling, y.uid),
+                    ));
+                } else if ca.map(|c| c < earliest_due).unwrap_or(false) {
                     out.decided_cancels += 1;
                 } else {
                     out.undecided_cancels += 1;
@@ -437,7 +464,7 @@ pub fn run(args: &Args, rep: &mut Report) {
             rep.nontrivial_key(&format!("{:x}", crate::rng::fnv(&o.xml)));
         }
         for (k, w) in &o.violations {
-            rep.violation(k, &format!("[{}] {}", dm, w), json!({"datamodel": dm, "xml": o.xml}));
+            rep.violation(k, &format!("[{}] {}", dm, w), json!({"datamodel": dm, "xml": o.xml, "timeline": o.timeline}));
         }
         if rep.samples.len() < rep.max_samples {
             rep.sample(json!({"datamodel": dm, "xml": o.xml, "delivered": o.delivered, "decided_order_pairs": o.decided_order_pairs, "decided_cancels": o.decided_cancels}));
